@@ -20,4 +20,23 @@ C01Reasons(r) ==
   ELSE IF Recorded(r) \notin Outcome(r) THEN {"outcome:" \o Recorded(r)}
   ELSE IF r.out = "value" /\ ~ValueOk(r) THEN {"wrong-value"}
   ELSE {}
+
+(* in_scope (C01): "Every public fcppt function that is not explicitly named or documented as unsafe
+   returns normally ...: it never exhibits undefined behaviour ..., never fails to terminate and never
+   throws an undocumented exception.  Inputs the function cannot handle are reported only through an
+   empty optional, an either failure or the documented exception type."  The statement is about the
+   outcome CLASS of a call; a recorded value that differs from the owning specification's value
+   ("wrong-value") is that property's business (C06, C08, C15, C16, ...) and only an OBSERVATION here. *)
+C01InScopeReason(w) == w # "wrong-value"
+TNext ==
+  /\ l <= Len(T)
+  /\ l' = l + 1
+  /\ LET w == Reasons(T[l]) IN
+     IF w = {} THEN UNCHANGED <<bad, nbad>>
+     ELSE /\ nbad' = nbad + 1
+          /\ bad' = IF \E i \in 1..Len(bad) : bad[i].op = T[l].f /\ bad[i].why = w
+                    THEN bad
+                    ELSE Append(bad, [l |-> l, op |-> T[l].f, why |-> w, at |-> <<>>,
+                                      inscope |-> {x \in w : C01InScopeReason(x)}])
+TSpec == RLInit /\ [][TNext]_rlvars
 =============================================================================
